@@ -145,9 +145,18 @@ func regStd() {
 		if xs == nil {
 			return one(st, ex.Fresh("joined", SStr))
 		}
-		j := App("str_join", SStr, xs.Arr, xs.Len, sep)
+		xa := ex.symArr(st, xs)
+		j := App("str_join", SStr, xa, xs.Len, sep)
 		st.Fact(Implies(Eq(xs.Len, IntLit(0)), Eq(j, StrLit(""))))
-		st.Fact(Implies(Eq(xs.Len, IntLit(1)), Eq(j, Select(xs.Arr, IntLit(0)))))
+		st.Fact(Implies(Eq(xs.Len, IntLit(1)), Eq(j, Select(xa, IntLit(0)))))
+		// round trip: Split(Join(xs, sep), sep) == xs when xs is non-empty and
+		// no element contains sep (library fact, checked by axiom sanity)
+		qi := &Term{Op: "qi", S: SInt}
+		inRange := And(Le(IntLit(0), qi), Lt(qi, xs.Len))
+		noSep := quant("forall", "qi", Implies(inRange, Not(Builtin("str.contains", SBool, sel(xa, qi), sep))))
+		sp := App("str_split", SArr(SInt, SStr), j, sep)
+		same := quant("forall", "qi", Implies(inRange, Eq(sel(sp, qi), sel(xa, qi))))
+		st.Fact(Implies(And(Ge(xs.Len, IntLit(1)), Gt(StrLen(sep), IntLit(0)), noSep), And(Eq(App("str_split_len", SInt, j, sep), xs.Len), same)))
 		return one(st, j)
 	})
 	regEnv("strings.Split", "strings.Split(s, sep): symbolic slice split(s,sep), len>=1 for non-empty sep; Split(\"\",sep)==[\"\"]; inverse of Join (lemma axiom)", func(ex *Executor, st *State, c *callCtx) []callResult {
@@ -156,7 +165,10 @@ func regStd() {
 		ln := App("str_split_len", SInt, s, sep)
 		st.Fact(Ge(ln, IntLit(1)))
 		st.Fact(Implies(Not(Builtin("str.contains", SBool, s, sep)), And(Eq(ln, IntLit(1)), Eq(Select(arr, IntLit(0)), s))))
-		return one(st, &SymSliceV{Arr: arr, Len: ln, ElemT: types.Typ[types.String]})
+		// no element of a split contains the (non-empty) separator
+		qi := &Term{Op: "qi", S: SInt}
+		st.Fact(Implies(Gt(StrLen(sep), IntLit(0)), quant("forall", "qi", Implies(And(Le(IntLit(0), qi), Lt(qi, ln)), Not(Builtin("str.contains", SBool, sel(arr, qi), sep))))))
+		return one(st, ex.newSymSlice(st, arr, ln, types.Typ[types.String]))
 	})
 	regEnv("strconv.Itoa", "strconv.Itoa = str.from_int for n>=0 (uninterpreted otherwise)", func(ex *Executor, st *State, c *callCtx) []callResult {
 		n := ex.asTerm(st, c.Args[0])
@@ -532,4 +544,16 @@ func (ex *Executor) sprintf(st *State, format Value, args Value) *Term {
 		}
 	}
 	return App("sprintf", SStr, ft, ex.argsDigest(st, args))
+}
+
+// sel builds a select without simplification (for quantified bodies).
+func sel(arr, idx *Term) *Term {
+	return &Term{Op: "select", Args: []*Term{arr, idx}, S: elemSort(arr.S)}
+}
+
+// quant builds (forall|exists ((v Int)) body).
+func quant(q, v string, body *Term) *Term {
+	t := &Term{Op: q, Args: []*Term{body}, S: SBool}
+	t.str = "(" + q + " ((" + v + " Int)) " + body.String() + ")"
+	return t
 }
